@@ -959,3 +959,6 @@ func (s *Session) replyRaw(cmdSeq int, verb string, nth int, code int, text stri
 	s.ev(Event{Kind: "reply", Verb: verb, Nth: nth, ReplyTo: cmdSeq, Code: code, Text: text, EndOff: s.pipe.S2CLen()})
 	return err == nil
 }
+
+// IsZeroToken reports whether the event carries no attribution token.
+func (e Event) IsZeroToken() bool { return e.Token == "" }
